@@ -1735,8 +1735,13 @@ void mmd_assign_ambidextrous_tokens_in_block(mmd_engine * e, token * block, size
 /// consecutive characters should be interpreted as STRONG instead of EMPH
 /// \todo: Perhaps combining this with the routine when they are paired
 /// would improve performance?
-void pair_emphasis_tokens(token * t) {
+static void pair_emphasis_tokens_to_depth(token * t, unsigned short depth) {
 	token * closer;
+
+	if (depth == kMaxPairRecursiveDepth) {
+		// Nesting this deep is left unpaired rather than exhausting the stack
+		return;
+	}
 
 	while (t != NULL) {
 		if (t->mate != NULL) {
@@ -1784,13 +1789,18 @@ void pair_emphasis_tokens(token * t) {
 					break;
 
 				default:
-					pair_emphasis_tokens(t->child);
+					pair_emphasis_tokens_to_depth(t->child, depth + 1);
 					break;
 			}
 		}
 
 		t = t->next;
 	}
+}
+
+
+void pair_emphasis_tokens(token * t) {
+	pair_emphasis_tokens_to_depth(t, 0);
 }
 
 
